@@ -8,7 +8,7 @@ package bindnode
 // Reading a bound node goes through package reflect; the reflect getters used are
 // assumed (in /verif/contracts/external) to write nothing.
 //@ sweep[C20] assigns nothing: _node, _nodeRepr, _prototype, _prototypeRepr, Wrap(), Prototype(), Unwrap(),
-//@   inferSchema(), applyOptions(), fieldNameFromSchema(), newNode(), compatibleKind(), actualKind(), nonPtrVal(), ptrVal(), nonPtrType(),
+//@   inferSchema(), applyOptions(), fieldNameFromSchema(), newNode(), nonPtrVal(), ptrVal(), nonPtrType(),
 //@   unionMember(), reprNode(), reprStrategy(), outboundMappedKey(), inboundMappedKey(), outboundMappedType(), inboundMappedType()
 // A builder is a root slot (the interface-level contract of NewBuilder, restated for the concrete call).
 //@ func buildListpairsField(key, value) (r, err)
@@ -56,3 +56,69 @@ package bindnode
 //@ func (*_assemblerRepr).AssignString(s) (err)
 //@   trusted
 //@   assigns region(w)
+
+// ---- C09: the assemblers' own bookkeeping (what goes through package reflect is abstracted:
+//      reflect setters have no contract, so nothing is known about the Go value after them) ----
+
+// The kind gate: a scalar assign is accepted only by a type that acts like that kind (or by Any).
+//@ pure func actslike(t schema.Type) datamodel.Kind
+//@ func actualKind(schemaType) (r)
+//@   trusted
+//@   assigns nothing
+//@   ensures r == actslike(schemaType)
+//@ func compatibleKind(schemaType, kind) (err)
+//@   requires schemaType != nil
+//@   assigns[C20] nothing
+//@   ensures[C09] (err == nil) == (dyntype(schemaType, "*schema.TypeAny") || actslike(schemaType) == kind)
+//@ func (*_assembler).AssignBool(b) (err)
+//@   nosafety
+//@   requires w != nil && w.schemaType != nil
+//@   ensures[C09] err == nil ==> dyntype(old(w.schemaType), "*schema.TypeAny") || actslike(old(w.schemaType)) == datamodel.Kind_Bool
+//@ func (*_assembler).AssignInt(i) (err)
+//@   nosafety
+//@   requires w != nil && w.schemaType != nil
+//@   ensures[C09] err == nil ==> dyntype(old(w.schemaType), "*schema.TypeAny") || actslike(old(w.schemaType)) == datamodel.Kind_Int
+//@ func (*_assembler).AssignFloat(f) (err)
+//@   nosafety
+//@   requires w != nil && w.schemaType != nil
+//@   ensures[C09] err == nil ==> dyntype(old(w.schemaType), "*schema.TypeAny") || actslike(old(w.schemaType)) == datamodel.Kind_Float
+//@ func (*_assembler).AssignString(s) (err)
+//@   nosafety
+//@   requires w != nil && w.schemaType != nil
+//@   ensures[C09] err == nil ==> dyntype(old(w.schemaType), "*schema.TypeAny") || actslike(old(w.schemaType)) == datamodel.Kind_String
+//@ func (*_assembler).AssignBytes(p) (err)
+//@   nosafety
+//@   requires w != nil && w.schemaType != nil
+//@   ensures[C09] err == nil ==> dyntype(old(w.schemaType), "*schema.TypeAny") || actslike(old(w.schemaType)) == datamodel.Kind_Bytes
+//@ func (*_assembler).AssignLink(link) (err)
+//@   nosafety
+//@   requires w != nil && w.schemaType != nil
+//@   ensures[C09] err == nil ==> dyntype(old(w.schemaType), "*schema.TypeAny") || actslike(old(w.schemaType)) == datamodel.Kind_Link
+
+// Struct: an unknown field name yields an error assembler; a field is accepted once; Finish
+// reports every required field that was never assembled.
+//@ func (*_structAssembler).AssembleValue() (va)
+//@   nosafety
+//@   requires w != nil && w.schemaType != nil
+//@   after FieldByName let idx = result0.Index[0]
+//@   ensures[C09] field == nil ==> dyntype(va, "_errorAssembler") && unbox(va, "_errorAssembler").err != nil
+//@   ensures[C09] dyntype(va, "*_assembler") ==> !old(w.doneFields[idx])
+//@ func (*_structAssembler).Finish() (err)
+//@   nosafety
+//@   requires w != nil && w.schemaType != nil && len(w.doneFields) == len(w.schemaType.fields)
+//@   ensures[C09] err == nil ==> forall i mathint :: 0 <= i && i < old(len(w.schemaType.fields)) && !old(w.schemaType.fields[i].optional) ==> old(w.doneFields[i])
+//@   loop 0 invariant 0 - 1 <= rangeindex && rangeindex < len(fields) && fields == old(w.schemaType.fields) && len(w.doneFields) == len(fields)
+//@   loop 0 invariant len(missing) == 0 ==> forall j mathint :: 0 <= j && j <= rangeindex ==> old(w.schemaType.fields[j].optional) || old(w.doneFields[j])
+//@   loop 0 invariant forall j mathint :: 0 <= j && j < len(fields) ==> w.doneFields[j] == old(w.doneFields[j]) && fields[j].optional == old(w.schemaType.fields[j].optional)
+
+// Typed map: an entry is recorded (key appended, value stored) only for a key that is not present yet.
+//@ func (*_mapAssembler).AssembleValue$1() (err)
+//@   nosafety
+//@   before Append assert[C09] !reflect.rmaphas(w.valuesVal, kval)
+//@   before SetMapIndex assert[C09] carg0 == w.valuesVal && carg1 == kval
+
+// Union (type level): an unknown member name yields an error assembler.
+//@ func (*_unionAssembler).AssembleValue() (va)
+//@   nosafety
+//@   requires w != nil && w.schemaType != nil
+//@   ensures[C09] mtyp == nil ==> dyntype(va, "_errorAssembler") && unbox(va, "_errorAssembler").err != nil
